@@ -195,6 +195,55 @@ func verifC40Worker(pm *pathManager, r *verifutil.Rand, iters int, mix int, wg *
 	}
 }
 
+// verifC40Sites: for every goroutine parked in a channel operation / select / WaitGroup.Wait whose
+// innermost non-runtime frame is code of internal/core (not this harness): "Type.method:line".
+// This is what the extracted table must know about (conformance of the model's waits).
+func verifC40Sites(into map[string]bool) {
+	buf := make([]byte, 4<<20)
+	n := runtime.Stack(buf, true)
+	for _, g := range strings.Split(string(buf[:n]), "\n\n") {
+		lines := strings.Split(g, "\n")
+		if len(lines) < 3 {
+			continue
+		}
+		hdr := lines[0]
+		if !(strings.Contains(hdr, "[chan send") || strings.Contains(hdr, "[chan receive") ||
+			strings.Contains(hdr, "[select") || strings.Contains(hdr, "WaitGroup.Wait") ||
+			strings.Contains(hdr, "[semacquire")) {
+			continue
+		}
+		for i := 1; i+1 < len(lines); i += 2 {
+			fn := lines[i]
+			if strings.HasPrefix(fn, "runtime.") || strings.HasPrefix(fn, "sync.") || strings.HasPrefix(fn, "internal/") {
+				continue
+			}
+			const pfx = "github.com/bluenviron/mediamtx/internal/core."
+			if !strings.HasPrefix(fn, pfx) {
+				break
+			}
+			f := fn[len(pfx):]
+			if j := strings.LastIndex(f, "("); j >= 0 {
+				f = f[:j]
+			}
+			f = strings.NewReplacer("(*", "", ")", "").Replace(f)
+			if strings.HasPrefix(f, "verifC40") || strings.HasPrefix(f, "TestVerif") || strings.Contains(f, ".func") {
+				break
+			}
+			loc := strings.TrimSpace(lines[i+1])
+			if k := strings.LastIndex(loc, ":"); k >= 0 {
+				ln := loc[k+1:]
+				if sp := strings.IndexByte(ln, ' '); sp >= 0 {
+					ln = ln[:sp]
+				}
+				into[f+":"+ln] = true
+			}
+			break
+		}
+	}
+}
+
+var verifC40Hangs int
+
 // names of the internal/core functions goroutines are blocked in
 func verifC40Blocked() string {
 	buf := make([]byte, 4<<20)
@@ -234,6 +283,10 @@ func verifC40Exec(op string) string {
 	f := strings.Fields(op)
 	if f[0] != "stress" {
 		return "bad-op"
+	}
+	if verifC40Hangs >= 3 {
+		// the process already carries the leaked goroutines of three hung runs: stop searching
+		return "skipped"
 	}
 	seed := uint64(verifutil.AtoI64(f[1]))
 	workers, iters, mix, closeEarly := verifutil.Atoi(f[2]), verifutil.Atoi(f[3]), verifutil.Atoi(f[4]), f[5] == "1"
@@ -281,11 +334,30 @@ func verifC40Exec(op string) string {
 		pool.Close()
 		close(finished)
 	}()
-	select {
-	case <-finished:
-		return "done"
-	case <-time.After(watchdog):
-		return "hang " + verifC40Blocked()
+	sites := map[string]bool{}
+	tick := time.NewTicker(3 * time.Millisecond)
+	defer tick.Stop()
+	deadline := time.After(watchdog)
+	for {
+		select {
+		case <-finished:
+			var l []string
+			for s := range sites {
+				l = append(l, s)
+			}
+			sort.Strings(l)
+			if len(l) == 0 {
+				return "done sites=-"
+			}
+			return "done sites=" + strings.Join(l, ",")
+		case <-tick.C:
+			if len(sites) < 64 {
+				verifC40Sites(sites)
+			}
+		case <-deadline:
+			verifC40Hangs++
+			return "hang " + verifC40Blocked()
+		}
 	}
 }
 
@@ -300,7 +372,7 @@ func verifC40Gen(r *verifutil.Rand, i int, thorough bool) []string {
 	if r.Chance(1, 2) {
 		closeEarly = 1
 	}
-	return []string{fmt.Sprintf("stress %d %d %d %d %d %d", r.U64()>>1, workers, iters, mix, closeEarly, 8000)}
+	return []string{fmt.Sprintf("stress %d %d %d %d %d %d", r.U64()>>1, workers, iters, mix, closeEarly, 4000)}
 }
 
 func TestVerifC40(t *testing.T) {
